@@ -8,6 +8,21 @@ ALL = [f'C{i:02d}' for i in range(1, 21)]
 
 # property -> (level text, level note, technique, design section)
 CHECKS = {
+    'C03': (
+        'Lean 4 theorems for all exponents t and global shifts s over any commutative ring with a lawful phase map (so over the complex '
+        'numbers with the real exponential): the closed form printed in the docstring of XPowGate, YPowGate, ZPowGate, HPowGate, CZPowGate, '
+        'ZZPowGate, SwapPowGate, XXPowGate, YYPowGate equals the eigen-decomposition sum_k e^{i pi t (theta_k + s)} P_k '
+        '(C03_<Gate>_doc). T3 ties the (theta_k, P_k) tables to the running code: _eigen_components() of every EigenGate subclass (20 '
+        'classes incl. Rx/Ry/Rz/MS/CCX/CCZ/ISWAP/PhasedISWAP) is extracted on every run into exact Q(zeta_8) Lean data and obligations are '
+        're-decided by the kernel: projectors idempotent, orthogonal, complete, Hermitian, and equal to the table the documentation '
+        'theorem is about. T2: cirq.unitary / cirq.kraus of 30 gate families, every named constant, diagonal/identity gates, IonQ and '
+        'Google gates and 7 channels at special and random parameters against the transcription executed on floats.',
+        'Trusted: Lean kernel; Spec/GateDocs.lean is a hand transcription of the docstrings; families without a doc theorem yet (CX, ISWAP, '
+        'CCX/CCZ, FSim, PhasedX(Z), PhasedISwap, IonQ gates, channels, qudit X/Z) are covered by T2 (and projector obligations) only; '
+        'the embedding Q(zeta_8) -> C is a ring monomorphism (standard, not formalised); float evaluation of sin/cos/exp for T2.',
+        'Lean 4 proof (ring identities for all parameters) + kernel-decided obligations on tables regenerated from the code + differential check',
+        'DESIGN.md §3 C03',
+    ),
     'C01': (
         'Lean 4 theorems, for every commutative ring of amplitudes, every register shape (qubits and qudits), every circuit and '
         'initial state: the array interpreter the implementation is compared with computes the ordered product of the local '
